@@ -70,11 +70,20 @@ def _merge_counters(dst, src):
         dst[k] = dst.get(k, 0) + v
 
 
+_KF = [None]
+
+
+def _kf():
+    if _KF[0] is None:
+        _KF[0] = findings.load()
+    return _KF[0]
+
+
 def _chunk_worker(args):
     modname, seed, lo, hi, tr, systematic_plans = args
     faulthandler.enable()
     mod = sys.modules[modname]
-    out = {'n': 0, 'evals': 0, 'ok': 0, 'skip': 0, 'viol': [], 'counters': {}, 'digests': [],
+    out = {'n': 0, 'evals': 0, 'ok': 0, 'skip': 0, 'viol': [], 'known': {}, 'viol_dropped': 0, 'counters': {}, 'digests': [],
            'sites': set(), 'skips': {}, 'samples': [], 'harness': None, 'events': 0,
            'all_digest': []}
     plans = []
@@ -110,8 +119,15 @@ def _chunk_worker(args):
             r_ = res.get('reason', '?')
             out['skips'][r_] = out['skips'].get(r_, 0) + 1
         elif st == 'violation':
-            out['viol'].append({'plan': pl, 'invariant': res['invariant'],
-                                'detail': res.get('detail', {}), 'sig': res['sig']})
+            v = {'plan': pl, 'invariant': res['invariant'], 'detail': res.get('detail', {}), 'sig': res['sig']}
+            # classify against the open findings here, in the worker: it needs re-executions
+            fid = _kf().classify(mod, v)
+            if fid is not None:
+                out['known'][fid] = out['known'].get(fid, 0) + 1
+            elif len(out['viol']) < 40:
+                out['viol'].append(v)
+            else:
+                out['viol_dropped'] += 1
             if res.get('nontrivial'):
                 out['digests'].append((P.digest(pl)[:16], res.get('weight', 1)))
         else:
@@ -137,7 +153,7 @@ def run_batch(mod, seed, tr, n_runs, budget_s):
             jobs.append((mod.__name__, seed, 0, 0, tr, sysplans[k:k + 50]))
     for lo in range(0, n_runs, chunk):
         jobs.append((mod.__name__, seed, lo, min(n_runs, lo + chunk), tr, None))
-    merged = {'n': 0, 'evals': 0, 'ok': 0, 'skip': 0, 'viol': [], 'counters': {}, 'digests': {},
+    merged = {'n': 0, 'evals': 0, 'ok': 0, 'skip': 0, 'viol': [], 'known': {}, 'viol_dropped': 0, 'counters': {}, 'digests': {},
               'sites': set(), 'skips': {}, 'samples': [], 'harness': None, 'events': 0,
               'truncated': False, 'all_digest': []}
     ctx = multiprocessing.get_context('fork')
@@ -190,6 +206,8 @@ def run_batch(mod, seed, tr, n_runs, budget_s):
         merged['ok'] += res['ok']
         merged['skip'] += res['skip']
         merged['viol'].extend(res['viol'])
+        _merge_counters(merged['known'], res['known'])
+        merged['viol_dropped'] += res['viol_dropped']
         _merge_counters(merged['counters'], res['counters'])
         _merge_counters(merged['skips'], res['skips'])
         for dg, wt in res['digests']:
@@ -333,14 +351,12 @@ def run_check(mod):
         return 2
     # 2. classify violations
     unknown = {}
-    for v in merged['viol']:
-        fid = kf.classify(mod, v)
-        if fid is not None:
-            known_counts[fid] = known_counts.get(fid, 0) + 1
-            continue
+    for fid, c in merged['known'].items():
+        known_counts[fid] = known_counts.get(fid, 0) + c
+    for v in merged['viol']:          # already classified as unknown by the workers
         key = json.dumps(v['sig'], sort_keys=True)
         unknown.setdefault(key, []).append(v)
-    n_viol = sum(len(x) for x in unknown.values())
+    n_viol = sum(len(x) for x in unknown.values()) + merged['viol_dropped']
     lines = []
     for key in sorted(unknown):
         print('signature %s x%d' % (key, len(unknown[key])))
